@@ -38,16 +38,16 @@ def plan(tier, seed):
     if tier == "thorough":
         return [dict(seed=seed, shard=i, n=60) for i in range(16)] + [dict(seed=seed, shard="polling", kind="polling", n=400), dict(seed=seed, shard="late_stop", kind="late_stop"),
                                                                    dict(seed=seed, shard="bursts", kind="bursts", n=30),
-                                                                   dict(seed=seed, shard="reaccept0", kind="reaccept", n=12), dict(seed=seed, shard="reaccept1", kind="reaccept", n=12)]
+                                                                   dict(seed=seed, shard="twin", kind="twin", n=12), dict(seed=seed, shard="reaccept0", kind="reaccept", n=12), dict(seed=seed, shard="reaccept1", kind="reaccept", n=12)]
     return [dict(seed=seed, shard=i, n=5) for i in range(16)] + [dict(seed=seed, shard="polling", kind="polling", n=60), dict(seed=seed, shard="late_stop", kind="late_stop"),
-                                                                  dict(seed=seed, shard="bursts", kind="bursts", n=4), dict(seed=seed, shard="reaccept", kind="reaccept", n=2)]
+                                                                  dict(seed=seed, shard="bursts", kind="bursts", n=4), dict(seed=seed, shard="reaccept", kind="reaccept", n=2), dict(seed=seed, shard="twin", kind="twin", n=3)]
 
 
 def gen_generation(rnd, index, ending):
     # accept_delay 0: the accept loop polls without pausing (a legal, if wasteful, setting)
     gen = {"accept_delay": rnd.choice([0.01, 0.03, 0.05, 0.1, 0.3, 0, 0]), "payloads": [], "services": [], "grace": 0.15}
     script = [["wait_running", 10]]
-    population = rnd.choice(["none", "sleepers", "sleepers", "blocked", "mixed", "submitters", "cross", "many", "services", "dispatcher"])
+    population = rnd.choice(["none", "sleepers", "sleepers", "blocked", "mixed", "submitters", "cross", "many", "services", "dispatcher", "stubborn"])
     if population == "services":
         # services keep being created by other threads while the accept loop polls: nothing of that may end the runner
         sid = 0
@@ -66,6 +66,11 @@ def gen_generation(rnd, index, ending):
                                 "cleanup": {"kind": "shielded", "dur": rnd.choice([0.15, 0.3, 0.5])}})
         gen["payloads"].append({"id": "streamer", "flavour": "threading", "when": "queued", "cleanup": {"kind": "none"},
                                 "program": [["adopt_stream", rnd.choice(["trio", "trio", "asyncio", "threading"]), rnd.choice([0.002, 0.005])]]})
+    if population == "stubborn":
+        # asyncio payloads that finish what they are doing first: they only end when they are cancelled a second or third time
+        for i in range(rnd.randint(1, 2)):
+            gen["payloads"].append({"id": "stub%d" % i, "flavour": "asyncio", "when": "queued", "program": rnd.choice([[["beat", 0.01, None]], [["block"]]]),
+                                    "cleanup": {"kind": "absorb", "times": rnd.choice([1, 1, 2])}})
     if population == "many":
         # a large population of sleeping coroutines: ending the runtime must not take time per payload
         for i in range(rnd.choice([100, 150, 200])):
@@ -263,6 +268,44 @@ def run_late_stop_shard(spec, result):
                                  % (which + 1, ending, out["late_shutdown"], out.get("accept")), dict(case, observed=out), None, spec=spec, case_id=which * 2 + (ending == "failure"))
 
 
+def run_twin_shard(spec, result):
+    """Forced schedule (vlib/rt/twin_accept.py): 2-4 service runners call accept() at the same instant, every statement
+    boundary inside the guard stretched: one is admitted, the others are refused while it accepts."""
+    import json
+    import os
+    import subprocess
+
+    only = spec.get("only_case")
+    for idx in range(spec["n"]):
+        if only is not None and idx != only:
+            continue
+        callers = 2 + idx % 3
+        case = {"kind": "twin", "callers": callers, "seed": spec["seed"] * 100 + idx}
+        try:
+            proc = subprocess.run([core.PYTHON, "-m", "vlib.rt.twin_accept", str(callers), str(case["seed"])], capture_output=True, text=True, timeout=90, env=dict(os.environ))
+            out = json.loads(proc.stdout.strip().splitlines()[-1])
+        except Exception as err:  # noqa: B902
+            result.inconc("forced twin-accept schedule %s did not run: %r" % (case, err))
+            continue
+        result.case(dict(case, observed=out), nontrivial=True, key=json.dumps(case))
+        if out.get("inconclusive"):
+            result.inconc("forced twin-accept schedule %s: %s" % (case, out["inconclusive"]))
+            continue
+        result.count("simultaneous_accept_schedules_checked")
+        what = None
+        others = [o for i, o in enumerate(out["while_winner_accepting"]) if i != out["winner"]]
+        if len(out["admitted_together"]) > 1:
+            what = "%d runners were accepting at the same time" % len(out["admitted_together"])
+        elif any(o != "refused" for o in others):
+            what = ("one second after runner %d had been admitted the other callers were %r: a concurrent accept is refused with RuntimeError, it does not wait (afterwards admitted: %r)"
+                    % (out["winner"], ["still waiting" if o is None else o for o in others], out["admitted_after_the_winner_ended"]))
+        elif out["admitted_after_the_winner_ended"]:
+            what = "callers %r were admitted after the winner had ended" % out["admitted_after_the_winner_ended"]
+        if what:
+            result.violation("%d runners calling accept() at the same instant: %s" % (callers, what), dict(case, observed=out), None,
+                             spec={k: v for k, v in spec.items() if k != "only_case"}, case_id=idx)
+
+
 def run_polling_shard(spec, result):
     """The accept loop's polling under a virtual clock: however long the runner has been up, a shutdown request is
     noticed within one accept_delay, and the loop sweeps the services at least that often."""
@@ -389,6 +432,9 @@ def judge(case, run, result):
             result.count("endings_while_services_are_being_created")
         if meta["population"] == "many":
             result.count("endings_with_100_to_200_sleeping_coroutines")
+        if meta["population"] == "stubborn":
+            result.count("endings_with_asyncio_payloads_that_must_be_cancelled_repeatedly")
+            result.count("ending_%s_with_stubborn_asyncio_payloads" % ending)
         if meta["population"] == "dispatcher":
             asked = run.first("call", gen=g, op="shutdown") or run.first("fail", gen=g)
             inside = [e for e in run.of("stream-adopt", gen=g) if asked and asked["seq"] < e["seq"] < ended["seq"]]
@@ -439,6 +485,9 @@ def run_shard(spec):
     if spec.get("kind") == "polling":
         run_polling_shard(spec, result)
         return result
+    if spec.get("kind") == "twin":
+        run_twin_shard(spec, result)
+        return result
     if spec.get("kind") == "late_stop":
         run_late_stop_shard(spec, result)
         return result
@@ -458,7 +507,7 @@ def run_shard(spec):
 
 
 def finish(total, tier):
-    need = ["histories_completed", "polling_loops_checked", "restarts_of_the_same_runner_instance", "concurrent_accepts_rejected", "shutdown_calls_returned", "race_outcome_returned", "forced_late_stop_schedules_checked", "endings_while_a_thread_payload_kept_adopting", "accepts_on_the_accepting_runner_itself_rejected", "accepts_on_the_accepting_runner_rejected_while_a_shutdown_request_was_pending",
+    need = ["histories_completed", "polling_loops_checked", "restarts_of_the_same_runner_instance", "concurrent_accepts_rejected", "shutdown_calls_returned", "race_outcome_returned", "forced_late_stop_schedules_checked", "simultaneous_accept_schedules_checked", "endings_while_a_thread_payload_kept_adopting", "endings_with_asyncio_payloads_that_must_be_cancelled_repeatedly", "accepts_on_the_accepting_runner_itself_rejected", "accepts_on_the_accepting_runner_rejected_while_a_shutdown_request_was_pending",
             "endings_with_trio_payloads_calling_into_asyncio", "rejected_runners_shut_down_beside_the_active_one", "endings_with_100_to_200_sleeping_coroutines", "endings_while_services_are_being_created", "generations_with_accept_delay_0", "shutdowns_with_asyncio_payload_failing_on_cancellation", "shutdowns_with_trio_payload_failing_on_cancellation"]
     need += ["ending_" + e for e in ENDINGS] + ["restarts_after_" + e for e in ENDINGS]
     for name in need:
